@@ -226,6 +226,15 @@ def check_send(run, F, fn, kind):
             if isinstance(core, tuple) and core[0] == "ctor" and core[1].endswith("::Err") and isinstance(core[2], list) and len(core[2]) == 1 and \
                     is_call(core[2][0], "<from-err>") and core[2][0][2]:
                 core = core[2][0][2][0]     # .. and this is its error side, when the `?` sits in a helper that was inlined
+            # .. or as an explicit match: `Ok(v) => Ok(v)` / `Err(e) => Err(ParseError(e))` (what From<IppParseError> for IppError does)
+            if isinstance(core, tuple) and core[0] == "ctor" and isinstance(core[2], list) and len(core[2]) == 1:
+                inner_ = core[2][0]
+                if core[1].endswith("::Err") and isinstance(inner_, tuple) and inner_[0] == "ctor" and inner_[1] == "ipp::error::IppError::ParseError" and len(inner_[2]) == 1:
+                    inner_ = inner_[2][0]
+                if is_call(inner_, "std::convert::From::from", "std::convert::Into::into") and inner_[2]:
+                    inner_ = inner_[2][0]
+                if isinstance(inner_, tuple) and inner_[0] == "proj" and str(inner_[2]) == ("Ok.0" if core[1].endswith("::Ok") else "Err.0"):
+                    core = inner_[1]
             while isinstance(core, tuple) and core[0] in ("await",):
                 core = core[1]
             ok_ret = core is pt or (is_call(core, parse_name))
